@@ -919,7 +919,7 @@ RULES.update({
     "C13": "same sessions; non-trivial = refused pushes, pushes of special-kind moves, pops, equality comparisons (rebuilt chain + 6 perturbed variants); distinct by (session start, op index)",
     "C14": "shuffle-biased sessions (moves that undo the previous own move) from small endgames and castling/e.p. starts with clocks near 100/150; calc_outcome and set_auto_outcome under all three filters, a spy Repeat wrapping HashRepeat records count(); non-trivial = outcome not none or repetition count >= 2",
     "C17": "walk-biased sessions: random next/prev/start/end step sequences (returned board in full projection), UCI list text + from_uci_list round trip, styled(...) for all 3 number policies x 3 styles x 2 status policies incl. Black-to-move starts and custom numbers; non-trivial = walker/printing of a chain with >= 1 move",
-    "C08": "FEN of every position of the stream (board) + unvalidated random raw boards with rank-consistent e.p. mark (0-64 men, any number of kings) + all 2^8 run-length patterns of one rank + accepted non-canonical and mutated texts; distinct by text",
+    "C08": "FEN of every position of the stream (board), of boards reached from them by special moves and by the NULL move + unvalidated random raw boards with rank-consistent e.p. mark (0-64 men, any number of kings) + all 2^8 run-length patterns of one rank + accepted non-canonical and mutated texts; distinct by text",
     "C09": "per position: SAN of every legal move in both styles + ~100-300 texts (hints added/removed/wrong, capture mark toggled, promotion changed, every short pawn-capture form, UCI spellings, check suffixes, garbage); non-trivial = position where some SAN is longer than 3 characters",
     "C10": "per position all 20 480 strings [a-h][1-8][a-h][1-8][nbrq]? + '0000' through from_uci, from_uci_semilegal, from_uci_legal, Uci(s).make, uci::Move::make; non-trivial = position with a special-kind pseudo-legal move",
     "C12": "every string of length <= 2 (quick: + 1/12 of length 3; thorough: all of length <= 3) over a 25-symbol alphabet incl. 2-, 3- and 4-byte characters, NUL and space; grammar-directed mutations of valid texts; long strings; random Unicode; UCI lists with ASCII and non-ASCII whitespace; each through 12 parsing entry points; non-trivial = multi-byte, short or accepted text",
